@@ -172,6 +172,24 @@ THIRD WAVE.  Additional outputs:
         intersects(a, b) = (a land b <>? 0);  ModKeys::iter_keys(m) = for each set bit i of 0..3 in order the pair
         [100 + 2 i; 101 + 2 i] (the model's numbering of {Alt,Control,Shift,Super}{Left,Right}; iter_keys itself
         is NOT translated).
+
+FOURTH WAVE.  <out>/ActionSrc.v: src/input_context/input_bind.rs struct InputBind, context_instance.rs struct ActionBind
+  (generated records; `&str` field dropped) and ActionBind::update: the body of `for binding in &mut self.bindings`
+  as the step function ActionBind_update_step_src over ((tracker, self), binding), the whole function as
+  ActionBind_update_src returning (self, commands, reader, action).  Ties: coq/Proofs/SrcTie4P.v.
+  Additions to the subset: `continue` (ends the step with the current state; `if .. { continue; }` makes the rest of
+  the body the other branch); `for x in &mut PLACE { .. }` = for_mut (fixed text in ActionSrc.v) over a separate step
+  Definition whose parameters are the live variables; `for x in &VEC { .. }` mutating one outer variable = fold_left;
+  `&mut` parameters of a `&mut self` unit method are returned next to self; match-statement arms `=> ()`;
+  Vec<T> = list T with push(x) = l ++ [x], clear() = []; ActionState::cmp (derive(Ord)) = Nat.compare of the
+  declaration indices, Ordering -> comparison (Less Lt, Equal Eq, Greater Gt).
+  OPAQUE PARAMETERS (Section variables of ActionSrc.v; ACTION_PRE, OPAQUE_PAIR_STMTS, EFFECT_STMTS,
+  OPAQUE_VALUE_METHODS): Vec<Box<dyn InputModifier>> / Vec<Box<dyn InputCondition>> / Commands are abstract types
+  Mods' Conds' Cmds'; t.apply_modifiers(actions, time, &mut ms) = let (t, ms) := apply_modifiers' t ms (likewise
+  apply_conditions'; the `actions` / `time` arguments are fixed during the call and not passed);
+  reader.raw_value(i) = raw_value' reader i; `let x = actions.get_mut(&k).expect(..)` binds x to entry' (the stored
+  ActionData) and x is returned updated; action.trigger_events(commands, entities) = commands := trigger_events'
+  action commands entities.  trace! is skipped.
 """
 import sys, os, argparse
 from fractions import Fraction
@@ -787,6 +805,11 @@ class Parser(object):
             if not (self.at(';') or self.at('}') or self.at(',')):
                 val = self.expr()
             return Node('Return', line, expr=val)
+        if t.kind == 'id' and t.text == 'continue':
+            self.next()
+            if self.peek().kind == 'life':
+                self.fail("labelled `continue`")
+            return Node('Continue', line)
         if t.kind == 'id' and t.text == 'move' and self.peek(1).kind == 'p' and self.peek(1).text in ('|', '||'):
             self.fail("`move` closure")
         if t.kind == 'id' and t.text in ('loop', 'while', 'unsafe', 'async', 'move', 'break', 'continue',
@@ -1248,7 +1271,7 @@ RECORD_MAP['ActionData'] = ('data', {
     'elapsed_secs': ('d_elapsed', 'f32'), 'fired_secs': ('d_fired', 'f32')})
 # struct fields that are not modelled at all (never read or written by translated code)
 def ignored_field(ty):
-    return ty.startswith('fn(') or ty.startswith('PhantomData<')
+    return ty.startswith('fn(') or ty.startswith('PhantomData<') or ty == '&str'
 TRANSLATED_TRAITS = ['InputCondition', 'InputModifier']
 # opaque parameter types: `&Time<Virtual>`: each method used becomes a parameter of type Q (in this order)
 TIME_TYPE = 'Time<Virtual>'
@@ -1524,6 +1547,43 @@ Definition mod_iter_keys (m : Z) : list (list Z) :=
 End Bevy.
 """
 
+# --- fourth wave: ActionBind::update ---
+COQ_TYPE.update({'TypeId': 'Z', 'Vec<Box<dyn InputModifier>>': "Mods'", 'Vec<Box<dyn InputCondition>>': "Conds'",
+                 'Commands': "Cmds'", '[Entity]': 'list Z', 'Ordering': 'comparison'})
+ENUM_MAP['Ordering'] = {'Less': ('Lt', 'unit', []), 'Equal': ('Eq', 'unit', []), 'Greater': ('Gt', 'unit', [])}
+EXTERNAL_ENUMS['Ordering'] = ('<core::cmp>', [('Less', 'unit', []), ('Equal', 'unit', []), ('Greater', 'unit', [])], [])
+BEVY_METHODS[('ActionState', 'cmp')] = (['ActionState'], 'Ordering',          # derive(Ord): declaration order
+                                        'Nat.compare (ActionState_index_src {r}) (ActionState_index_src {a0})')
+BEVY_MUT_METHODS[('Vec', 'push')] = ('elem', '{cur} ++ [{a0}]')
+BEVY_MUT_METHODS[('Vec', 'clear')] = (None, '[]')
+# statement calls that stay OPAQUE: recv.m(.., &mut place) = let (recv, place) := <parameter> recv place
+OPAQUE_PAIR_STMTS = {('TriggerTracker', 'apply_modifiers'): ("apply_modifiers'", 2),
+                     ('TriggerTracker', 'apply_conditions'): ("apply_conditions'", 2)}
+# effect calls: recv.m(target, args..) = target := <parameter> recv target args..
+EFFECT_STMTS = {('ActionData', 'trigger_events'): "trigger_events'"}
+# value calls that stay opaque: recv.m(args) = <parameter> recv args
+OPAQUE_VALUE_METHODS = {('InputReader', 'raw_value'): ("raw_value'", ['Input'], 'ActionValue')}
+ACTION_PRE = r"""(* meaning of `for x in &mut v { body }`: the body is run on every element in order, threading the outer state *)
+Fixpoint for_mut {S A : Type} (f : S -> A -> S * A) (s : S) (l : list A) : S * list A :=
+  match l with
+  | [] => (s, [])
+  | x :: r => let '(s1, x1) := f s x in let '(s2, r1) := for_mut f s1 r in (s2, x1 :: r1)
+  end.
+
+Section ActionSrc.
+(* OPAQUE PARAMETERS of the translated code (see the header of bin/rs2v.py, fourth wave) *)
+Variables Mods' Conds' Cmds' : Type.
+(* tracker.apply_modifiers(actions, time, &mut mods) / apply_conditions(..): new tracker and new memories *)
+Variable apply_modifiers' : tracker -> Mods' -> tracker * Mods'.
+Variable apply_conditions' : tracker -> Conds' -> tracker * Conds'.
+(* reader.raw_value(input) (uses mem::take: outside the subset) *)
+Variable raw_value' : InputReader_src -> input -> value.
+(* actions.get_mut(&self.type_id).expect(..): the ActionData stored for this action; it is returned updated *)
+Variable entry' : data.
+(* action.trigger_events(commands, entities): the effect on the command queue *)
+Variable trigger_events' : data -> Cmds' -> list Z -> Cmds'.
+"""
+
 # =====================================================================================
 # 4. Translator: typed AST -> Gallina text
 # =====================================================================================
@@ -1622,7 +1682,9 @@ class OutFile(object):
                "From Coq Require Import String.",
                "From BEI Require Import %s." % ' '.join(self.imports), "Local Open Scope string_scope.",
                "Local Open Scope Q_scope.", ""]
-        return '\n'.join(out + self.defs) + '\n'
+        pre = [getattr(self, 'pre', '')] if getattr(self, 'pre', '') else []
+        post = [getattr(self, 'post', '')] if getattr(self, 'post', '') else []
+        return '\n'.join(out + pre + self.defs + post) + '\n'
 
 
 class World(object):
@@ -1701,7 +1763,7 @@ class World(object):
             return COQ_TYPE[ty]
         if ty in self.smeta:
             return self.smeta[ty]['coq']
-        for (pre, fmt) in (('HashSet<', 'list %s'), ('Option<', 'option %s'), ('Iter<', 'list %s')):
+        for (pre, fmt) in (('HashSet<', 'list %s'), ('Option<', 'option %s'), ('Iter<', 'list %s'), ('Vec<', 'list %s')):
             if ty.startswith(pre) and ty.endswith('>'):
                 inner = self.coq_type_of(ty[len(pre):-1])
                 if inner is None:
@@ -1713,7 +1775,7 @@ class World(object):
         """make sure `ty` has a Gallina representation (instantiating generic structs on demand)"""
         if self.coq_type_of(ty) is not None:
             return
-        for pre in ('HashSet<', 'Option<', 'Iter<'):
+        for pre in ('HashSet<', 'Option<', 'Iter<', 'Vec<'):
             if ty.startswith(pre) and ty.endswith('>'):
                 self.ensure_type(ty[len(pre):-1], sf, line)
                 return
@@ -1941,6 +2003,23 @@ def contains_return(n):
     return False
 
 
+def contains_continue(n):
+    if isinstance(n, Node):
+        if n.k == 'Continue':
+            return True
+        if n.k == 'For':
+            return False
+        return any(contains_continue(v) for v in n.__dict__.values())
+    if isinstance(n, (list, tuple)):
+        return any(contains_continue(v) for v in n)
+    return False
+
+
+class LoopVars(list):
+    """state variables of a loop step followed by the element: rendered ((s1, s2), x)"""
+    pass
+
+
 def always_returns_block(b):
     for s in b.stmts:
         if always_returns_stmt(s):
@@ -1949,7 +2028,7 @@ def always_returns_block(b):
 
 
 def always_returns_expr(e):
-    if e.k == 'Return':
+    if e.k in ('Return', 'Continue'):
         return True
     if e.k in ('If', 'IfLet'):
         if e.els is None:
@@ -1984,7 +2063,14 @@ def assigned_vars(n, acc):
         if n.k == 'Assign':
             acc.append((assign_root(n.lhs), n.line))
         if n.k == 'Expr' and n.expr.k == 'Method':         # statement `place.method(..);` may mutate place
-            acc.append((assign_root(n.expr.recv), n.line))
+            if n.expr.name in [k_[1] for k_ in EFFECT_STMTS] and n.expr.args:
+                acc.append((assign_root(n.expr.args[0]), n.line))
+            else:
+                acc.append((assign_root(n.expr.recv), n.line))
+            if n.expr.name in [k_[1] for k_ in OPAQUE_PAIR_STMTS]:
+                for a_ in n.expr.args:
+                    if a_.k == 'Ref' and a_.mut:
+                        acc.append((assign_root(a_.expr), n.line))
         for v in n.__dict__.values():
             assigned_vars(v, acc)
     elif isinstance(n, (list, tuple)):
@@ -2049,6 +2135,9 @@ class FnTranslator(object):
         env = {}
         binders = []          # strings, or ('time',) / ('lookup',) placeholders resolved after the body
         self.time_used = []
+        self.out_vars = []
+        self.out_types = {}
+        self.step_name = coq_name[:-4] + '_step_src'
         self.opq_used = []
         self.lookup_used = False
         self.generics = list(getattr(f, 'generics', []))
@@ -2068,12 +2157,18 @@ class FnTranslator(object):
                 env[pat.name] = Var(ty, None, 'time')
                 binders.append(('time',))
                 continue
-            if ty == ACTIONS_TYPE and rk == 'ref':
+            if ty == ACTIONS_TYPE and rk in ('ref', 'refmut'):
                 env[pat.name] = Var(ty, None, 'actions')
                 binders.append(('lookup',))
                 continue
             if rk == 'refmut':
-                self.fail(pat.line, "`&mut` parameter `%s`" % pat.name)
+                if f.self_kind != 'refmut' or self.resolve_type(f.ret, f.line) != '()':
+                    self.fail(pat.line, "`&mut` parameter `%s`" % pat.name)
+                env[pat.name] = Var(ty, pat.name + "'", 'refmut')
+                binders.append("(%s' : %s)" % (pat.name, self.coq_type(ty, pat.line)))
+                self.out_vars.append(pat.name)           # returned next to self
+                self.out_types[pat.name] = self.coq_type(ty, pat.line)
+                continue
             env[pat.name] = Var(ty, pat.name + "'", 'mut' if pat.mut else 'val')
             env[pat.name].into_id = into_id
             binders.append("(%s' : %s)" % (pat.name, self.coq_type(ty, pat.line)))
@@ -2082,8 +2177,11 @@ class FnTranslator(object):
         self.pair = False
         if f.self_kind == 'refmut' and ret == '()':
             self.ret = None
-            text = self.seq(body.stmts, body.tail, env, ('vars', ['self']))
+            names = ['self'] + self.out_vars
+            text = self.seq(body.stmts, body.tail, env, ('vars', names))
             rtext = self.coq_type(self.self_type, f.line)
+            if len(names) > 1:
+                rtext = '(' + ' * '.join([rtext] + [self.out_types[n] for n in names[1:]]) + ')'
         else:
             self.ret = ret
             self.pair = f.self_kind == 'refmut'        # result: (new self, value)
@@ -2120,6 +2218,10 @@ class FnTranslator(object):
 
     # ---------------- statements (continuation style)
     def vars_text(self, names, env):
+        if isinstance(names, LoopVars):
+            st = names[:-1]
+            inner = env[st[0]].coq if len(st) == 1 else '(' + ', '.join(env[n].coq for n in st) + ')'
+            return '(%s, %s)' % (inner, env[names[-1]].coq)
         if len(names) == 1:
             return env[names[0]].coq
         return '(' + ', '.join(env[n].coq for n in names) + ')'
@@ -2192,6 +2294,49 @@ class FnTranslator(object):
                 return (head + r[0], r[1])
             return head + r
 
+        loop_ok = (not value_mode) and len(want) > 2 and want[2]
+        if s.k == 'Expr' and s.expr.k == 'Continue':
+            if not loop_ok:
+                self.fail(s.line, "`continue` here")
+            return self.vars_text(want[1], env)             # the step ends with the current state
+        if s.k == 'Expr' and s.expr.k in ('If', 'IfLet') and contains_continue(s.expr):
+            e = s.expr
+            if not loop_ok:
+                self.fail(s.line, "`continue` inside `if` here")
+            if contains_return(e):
+                self.fail(s.line, "`return` inside a loop")
+            fmt, env_then = self.cond_parts(e, env)
+
+            def cbranch(b, benv):
+                if b is None:
+                    return go_rest()
+                if b.k in ('If', 'IfLet'):
+                    return self.seq([Node('Expr', b.line, expr=b)] + rest, tail, benv, want)
+                if always_returns_block(b):
+                    return self.seq(b.stmts, b.tail, benv, want)
+                if any(x.k == 'Let' for x in b.stmts):
+                    self.fail(b.line, "`let` in a branch that may fall through next to a branch that continues")
+                extra = [Node('Expr', b.tail.line, expr=b.tail)] if b.tail is not None else []
+                return self.seq(b.stmts + extra + rest, tail, benv, want)
+            return fmt(cbranch(e.then, env_then), cbranch(e.els, env))
+        if s.k == 'Let' and s.pat.k == 'PBind' and self.getmut_idiom(s.init, env):
+            # let x = actions.get_mut(&self.key).expect(..): x is the stored entry, returned updated
+            key_t, key_ty = self.expr(self.strip_ref(s.init.recv.args[0]), env, None)
+            env[s.pat.name] = Var('ActionData', s.pat.name + "'", 'mut')
+            self.alias_key = (s.pat.name, key_t)
+            if value_mode or s.pat.name in want[1]:
+                self.fail(s.line, "`get_mut` alias here")
+            want[1].append(s.pat.name)
+            self.out_types[s.pat.name] = self.coq_type('ActionData', s.line)
+            return "let %s' :=\n  entry' in\n" % s.pat.name + go_rest()
+        if s.k == 'For' and s.iter.k == 'Ref' and s.iter.mut and s.pat.k == 'PBind':
+            head = self.for_mut(s, env, want)
+            return prefix(head, go_rest())
+        if s.k == 'For' and s.pat.k == 'PBind' and not contains_continue(s.body) and not (
+                s.iter.k == 'Method' and s.iter.name == 'zip'):
+            head = self.for_fold(s, env)
+            if head is not None:
+                return prefix(head, go_rest())
         if s.k == 'Expr' and s.expr.k == 'Macro':
             if s.expr.name not in SKIPPED_MACROS:
                 self.fail(s.line, "macro `%s!`" % s.expr.name)
@@ -2268,12 +2413,15 @@ class FnTranslator(object):
                 self.fail(e.line, "branches of types `%s` and `%s`" % (ty1, ty2))
             return (fmt(t1, t2), ty1)
         if s.k == 'Expr' and s.expr.k == 'Method':
-            name, newval = self.method_stmt(s.expr, env)
+            res = self.method_stmt(s.expr, env)
+            if len(res) == 3:
+                return prefix("let '(%s, %s) :=\n  %s in\n" % (env[res[0]].coq, env[res[2]].coq, ind(res[1])), go_rest())
+            name, newval = res
             return prefix("let %s :=\n  %s in\n" % (env[name].coq, ind(newval)), go_rest())
         if s.k == 'Expr' and s.expr.k in ('If', 'IfLet', 'Match', 'Block'):
             e = s.expr
-            if contains_return(e):
-                self.fail(s.line, "`return` inside `%s` statement" % e.k.lower())
+            if contains_return(e) or contains_continue(e):
+                self.fail(s.line, "`return` / `continue` inside `%s` statement" % e.k.lower())
             acc = assigned_vars(e, [])
             for (nm, ln) in acc:
                 if nm is None:
@@ -2362,12 +2510,98 @@ class FnTranslator(object):
             new = BINOP[key][0].format(a=par(cur), b=par(rhs))
         return root, rb(new)
 
+    def getmut_idiom(self, e, env):
+        return (e.k == 'Method' and e.name == 'expect' and e.recv.k == 'Method' and e.recv.name == 'get_mut'
+                and len(e.recv.args) == 1 and e.recv.recv.k == 'Path' and len(e.recv.recv.segs) == 1
+                and e.recv.recv.segs[0] in env and env[e.recv.recv.segs[0]].kind == 'actions')
+
+    def for_mut(self, s, env, want):
+        """for x in &mut PLACE { BODY }: BODY becomes a separate step function over (outer state, element)"""
+        root, cur, ty, rb = self.place(s.iter.expr, env, s.line)[:4]
+        if not ty.startswith('Vec<'):
+            self.fail(s.line, "`for` over `&mut` of type `%s`" % ty)
+        elem = ty[4:-1]
+        x = s.pat.name
+        state = []
+        for (nm, ln) in assigned_vars(s.body, []):
+            if nm is None:
+                self.fail(ln, "unsupported assignment target")
+            if nm in env and nm != x and nm not in state:
+                state.append(nm)
+        if contains_return(s.body):
+            self.fail(s.line, "`return` inside a loop")
+        env2 = dict(env)
+        env2[x] = Var(elem, x + "'", 'refmut')
+        names = LoopVars(state + [x])
+        saved = self.time_used
+        self.time_used = []
+        body = self.seq(s.body.stmts, s.body.tail, env2, ('vars', names, True))
+        used = self.time_used
+        self.time_used = saved + [m for m in used if m not in saved]
+        tb = [(c, 'Q') for (m, c) in TIME_METHODS if m in used]
+        params = [(v.coq, self.coq_type(v.ty, s.line)) for (n, v) in env.items() if v.coq is not None and n not in state]
+        sty = [self.coq_type(env[n].ty, s.line) for n in state]
+        sT = sty[0] if len(sty) == 1 else '(' + ' * '.join(sty) + ')'
+        sP = env[state[0]].coq if len(state) == 1 else "'(" + ', '.join(env[n].coq for n in state) + ')'
+        eT = self.coq_type(elem, s.line)
+        step = self.step_name
+        binders = ' '.join("(%s : %s)" % p for p in tb + params)
+        self.out.defs.append("(* body of the loop `for %s in &mut ..` of %s::%s, %s:%d, as a step over the outer state\n"
+                             "   (%s) and the element; `continue` ends the step *)\n"
+                             "Definition %s %s (st' : %s) (%s' : %s) : (%s * %s) :=\n  let %s := st' in\n  %s.\n"
+                             % (x, self.self_type, self.fn.name, self.sf.rel, s.line, ', '.join(state), step, binders,
+                                sT, x, eT, sT, eT, sP, ind(body)))
+        call = ' '.join([step] + [p[0] for p in tb + params])
+        st0 = env[state[0]].coq if len(state) == 1 else '(' + ', '.join(env[n].coq for n in state) + ')'
+        pat = "'(%s, items')" % (st0)
+        head = "let %s :=\n  for_mut (%s) %s %s in\n" % (pat, call, st0, par(cur))
+        head += "let %s :=\n  %s in\n" % (env[root].coq, ind(rb("items'")))
+        return head
+
+    def for_fold(self, s, env):
+        """for x in COLL { BODY } mutating ONE outer variable: fold_left"""
+        it = self.strip_ref(s.iter)
+        t, ty = self.expr(it, env, None)
+        if not ty.startswith('Vec<'):
+            return None
+        state = []
+        for (nm, ln) in assigned_vars(s.body, []):
+            if nm in env and nm not in state:
+                state.append(nm)
+        if len(state) != 1 or contains_return(s.body):
+            self.fail(s.line, "`for` loop mutating %d outer variables" % len(state))
+        x = s.pat.name
+        env2 = dict(env)
+        env2[x] = Var(ty[4:-1], x + "'", 'val')
+        body = self.seq(s.body.stmts, s.body.tail, env2, ('vars', [state[0]]))
+        v = env[state[0]].coq
+        return "let %s :=\n  fold_left (fun %s %s' =>\n    %s) %s %s in\n" % (v, v, x, ind(body, 4), par(t), v)
+
     def method_stmt(self, e, env):
         """statement  place.m(args);  where m is a translated `&mut self` method returning ()"""
         pl = self.place(e.recv, env, e.line)
         root, cur, ty, rb = pl[0], pl[1], pl[2], pl[3]
         key = (ty, e.name)
         ctor = ty.split('<')[0]
+        if key in OPAQUE_PAIR_STMTS:
+            fn, idx = OPAQUE_PAIR_STMTS[key]
+            if len(e.args) <= idx or e.args[idx].k != 'Ref' or not e.args[idx].mut:
+                self.fail(e.line, "unexpected arguments of `%s`" % e.name)
+            for a in e.args[:idx]:
+                a = self.strip_ref(a)
+                if not (a.k == 'Path' and len(a.segs) == 1 and a.segs[0] in env and env[a.segs[0]].kind in ('actions', 'time')):
+                    self.fail(a.line, "unexpected argument of `%s`" % e.name)
+            r2, cur2, ty2, rb2 = self.place(e.args[idx].expr, env, e.line)[:4]
+            if root == r2:
+                self.fail(e.line, "`%s` on overlapping places" % e.name)
+            self.pending = (r2, rb2("p2'"))
+            return root, "let '(p1', p2') := %s %s %s in\n(%s, %s)" % (fn, par(cur), par(cur2), rb("p1'"), rb2("p2'")), r2
+        if key in EFFECT_STMTS:
+            if not e.args:
+                self.fail(e.line, "unexpected arguments of `%s`" % e.name)
+            tr_, tcur, tty, trb = self.place(e.args[0], env, e.line)[:4]
+            rest_ = [par(self.expr(a, env, None)[0]) for a in e.args[1:]]
+            return tr_, trb(' '.join([EFFECT_STMTS[key], par(cur), par(tcur)] + rest_))
         if (ctor, e.name) in BEVY_MUT_METHODS:
             aty, tmpl = BEVY_MUT_METHODS[(ctor, e.name)]
             if env[root].kind not in ('mut', 'refmut'):
@@ -2542,6 +2776,9 @@ class FnTranslator(object):
                 a, _, _, env2 = arms[i]
                 try:
                     if want is not None:
+                        if a.body.k == 'Tuple' and not a.body.items:
+                            results[i] = (self.vars_text(want[1], env2), None)
+                            continue
                         if a.body.k not in ('Block', 'If'):
                             self.fail(a.line, "match-statement arm must be a block")
                         results[i] = (self.block_as(a.body, env2, want), None)
@@ -2664,6 +2901,17 @@ class FnTranslator(object):
             if e.targs:
                 self.fail(e.line, "turbofish method call")
             rt, rty = self.expr(r, env, None)
+            if (rty, e.name) in OPAQUE_VALUE_METHODS:
+                fn, ptys, res = OPAQUE_VALUE_METHODS[(rty, e.name)]
+                if len(ptys) != len(e.args):
+                    self.fail(e.line, "wrong number of arguments for `%s`" % e.name)
+                args = []
+                for (a, pty) in zip(e.args, ptys):
+                    t, ty = self.expr(a, env, pty)
+                    if ty != pty:
+                        self.fail(a.line, "argument of type `%s`, expected `%s`" % (ty, pty))
+                    args.append(par(t))
+                return ' '.join([fn, par(rt)] + args), res
             if (rty, e.name) in self.w.fns:
                 return self.user_call((rty, e.name), rt, e.args, env, e.line)
             if (rty, e.name) in GLAM_METHODS:
@@ -3201,6 +3449,24 @@ def run(repo, outdir):
         w.require_fn(key, o_rd, rd, 0)
     files['BevyTbl.v'] = BEVY_V
     files['ReaderSrc.v'] = o_rd
+    # ---- fourth wave: ActionBind::update
+    ib = SrcFile(repo, 'src/input_context/input_bind.rs')
+    o_act = OutFile('Generated.ActionSrc', ci.rel + ' and ' + ib.rel,
+                    ['Model.Num', 'Model.Value', 'Model.State', 'Model.Tracker', 'Model.Cond', 'Model.Modif',
+                     'Model.Reader', 'Generated.GlamTbl', 'Generated.BevyTbl', 'Generated.ValueSrc',
+                     'Generated.EventsSrc', 'Generated.TrackerSrc', 'Generated.DataSrc', 'Generated.ReaderSrc'])
+    o_act.pre = ACTION_PRE
+    o_act.post = 'End ActionSrc.'
+    w.load_external_enums()
+    w.gen_struct(ib, 'InputBind', o_act)
+    emit_setters(w, o_act, 'InputBind', ib)
+    w.gen_struct(ci, 'ActionBind', o_act)
+    emit_setters(w, o_act, 'ActionBind', ci)
+    w.load_impls(ci, o_act, 'ActionBind')
+    if ('ActionBind', 'update') not in w.fns:
+        raise Unsupported(ci.rel, 0, "function `ActionBind::update` not found")
+    w.require_fn(('ActionBind', 'update'), o_act, ci, 0)
+    files['ActionSrc.v'] = o_act
     # all translated: write
     if not os.path.isdir(outdir):
         os.makedirs(outdir)
